@@ -313,9 +313,17 @@ class Rec(object):
         try:
             run()
         except BaseException as exc:
-            if not (isinstance(exc, Violation) or state.get("abort")):
+            flaky = "Flaky" in type(exc).__name__ and state["last"] is not None
+            if not (isinstance(exc, Violation) or state.get("abort") or flaky):
                 raise
             case, v = state["last"]
+            if flaky:
+                # the violation was observed on a concrete case but did not recur when
+                # Hypothesis replayed the case: the library's behaviour depends on hidden
+                # state (a cache, object identity ...).  The observation stands.
+                v.msg += "  [observed once; not reproduced when the same case was replayed: " \
+                         "state-dependent behaviour]"
+                v.kind += ":state-dependent"
             self.violations.append({"clause": clause, "case": _jsonable(case),
                                     "violation": v.to_json()})
             return False
